@@ -220,7 +220,9 @@ CreateConstant(s, f, v) == Produce(s, f, ConstOutcome(s, f, v))
 VarOutcome(s, f, vh, primed, terms) ==
     IF ~(s \in DOMAIN edges) \/ ~LiveForest(f) THEN Fail("ANY")
     ELSE IF edges[s].f # f THEN Fail("ANY")        \* the code is not documented
-    ELSE Ok(VarFn(vh, primed, terms, UnitOf(fors[f]), Sizes(fors[f]), fors[f].rel))
+    ELSE \* vh names a *variable*; after a reordering it sits at the level k with l2v[k] = vh
+         LET lv == CHOOSE k \in 1..Len(fors[f].l2v) : fors[f].l2v[k] = vh
+         IN Ok(VarFn(lv, primed, terms, UnitOf(fors[f]), Sizes(fors[f]), fors[f].rel))
 
 CreateEdgeForVar(s, f, vh, primed, terms) == Produce(s, f, VarOutcome(s, f, vh, primed, terms))
 
